@@ -14,6 +14,7 @@
 package server
 
 import (
+	"errors"
 	"net"
 	"time"
 )
@@ -38,6 +39,16 @@ func (c *timeoutConn) Read(b []byte) (int, error) {
 		return 0, err
 	}
 	return c.Conn.Read(b)
+}
+
+var errNoHalfClose = errors.New("connection cannot be half-closed")
+
+// CloseWrite passes a half-close on to the wrapped connection; it fails if that cannot do it.
+func (c *timeoutConn) CloseWrite() error {
+	if cw, ok := c.Conn.(interface{ CloseWrite() error }); ok {
+		return cw.CloseWrite()
+	}
+	return errNoHalfClose
 }
 
 func (c *timeoutConn) Write(b []byte) (int, error) {
